@@ -17,6 +17,7 @@ use emit::Timestamp;
 use emit_file::verif as hook;
 use serde::{Deserialize, Serialize};
 
+pub mod e2e;
 pub mod gen;
 pub mod oracle;
 
